@@ -758,6 +758,88 @@ fn cut(s: &str) -> String {
     }
 }
 
+/// Zones that skip an hour (or half an hour, or two) on the same local date, evaluated one after the other on one
+/// thread with spans starting inside the skipped stretch of one of them: the answer for a zone must not depend on
+/// which zone was evaluated before (S-C18-g remembers the last gap it resolved, per thread, without its zone).
+fn gap_histories(ch: &mut Choices, case: &mut Case) -> Result<(), String> {
+    use crate::props::c09::{offset_at, transitions_step};
+    const FAMILIES: &[&[&str]] = &[
+        &["Europe/London", "Europe/Lisbon", "Europe/Paris", "Europe/Berlin", "Europe/Athens", "Europe/Helsinki", "Antarctica/Troll", "Atlantic/Azores", "Europe/Chisinau", "Asia/Beirut"],
+        &["Australia/Sydney", "Australia/Lord_Howe", "Australia/Adelaide", "Australia/Melbourne", "Australia/Hobart", "Antarctica/Macquarie", "Australia/Broken_Hill"],
+        &["America/New_York", "America/Chicago", "America/Denver", "America/Los_Angeles", "America/St_Johns", "America/Halifax", "America/Anchorage", "America/Adak", "America/Havana", "America/Toronto"],
+    ];
+    let family = FAMILIES[ch.draw(FAMILIES.len() as u32) as usize];
+    let year = 2008 + ch.draw(23) as i32;
+    let a = NaiveDate::from_ymd_opt(year, 1, 1).unwrap().and_hms_opt(0, 0, 0).unwrap();
+    let b = NaiveDate::from_ymd_opt(year + 1, 1, 1).unwrap().and_hms_opt(0, 0, 0).unwrap();
+    // (zone, local start of the skipped stretch, local end)
+    let mut gaps: Vec<(chrono_tz::Tz, NaiveDateTime, NaiveDateTime)> = Vec::new();
+    for name in family {
+        let tz: chrono_tz::Tz = name.parse().map_err(|_| format!("harness: unknown zone {name}"))?;
+        for t in transitions_step(tz, a, b, Duration::hours(6)) {
+            let (before, after) = (offset_at(tz, t - Duration::seconds(1)), offset_at(tz, t));
+            if after > before {
+                gaps.push((tz, t + Duration::seconds(before), t + Duration::seconds(after)));
+            }
+        }
+    }
+    if gaps.is_empty() {
+        case.exclude("no-gap-found");
+        return Ok(());
+    }
+    // the zones skipping time on the local date of a drawn gap
+    let day = gaps[ch.draw(gaps.len() as u32) as usize].1.date();
+    let pool: Vec<_> = gaps.into_iter().filter(|g| g.1.date() == day || g.2.date() == day).collect();
+    let n = 3 + ch.draw(5) as usize;
+    let mut queries: Vec<(chrono_tz::Tz, String, Op)> = Vec::new();
+    for _ in 0..n {
+        let (tz, _, _) = pool[ch.draw(pool.len() as u32) as usize];
+        // a wall-clock minute inside the skipped stretch of one of the zones of the pool
+        let (_, lo, hi) = pool[ch.draw(pool.len() as u32) as usize];
+        let minutes = (hi - lo).num_minutes().max(1);
+        let inside = lo + Duration::minutes(ch.int(0, minutes - 1));
+        let hm = format!("{:02}:{:02}", chrono::Timelike::hour(&inside), chrono::Timelike::minute(&inside));
+        let expr = match ch.draw(4) {
+            0 => format!("{hm}-10:00"),
+            1 => format!("00:00-{hm}"),
+            2 => format!("00:30-{hm} open, {hm}-12:00 unknown"),
+            _ => format!("{} {} {hm}-08:00", ["Jan", "Feb", "Mar", "Apr", "May", "Jun", "Jul", "Aug", "Sep", "Oct", "Nov", "Dec"][chrono::Datelike::month0(&inside.date()) as usize], chrono::Datelike::day(&inside.date())),
+        };
+        queries.push((tz, expr, if ch.chance(50) { Op::NextChange } else { Op::Intervals }));
+    }
+    let t = day.pred_opt().unwrap().and_hms_opt(ch.draw(24), 0, 0).unwrap();
+    let build = |tz: chrono_tz::Tz, expr: &str| -> AnyOh {
+        AnyOh::Tz(OpeningHours::parse(expr).unwrap().with_context(Context::default().with_locale(TzLocation::new(tz))), tz)
+    };
+    case.key = format!("{day}: {}", queries.iter().map(|(tz, e, op)| format!("{op:?} `{e}` @ {tz}")).collect::<Vec<_>>().join("; "));
+    // on this thread, in order
+    let here: Vec<String> = queries
+        .iter()
+        .map(|(tz, expr, op)| answer(&[build(*tz, expr)], &Query { oh: 0, op: *op, t }))
+        .collect();
+    // each one alone on a fresh thread
+    for (i, (tz, expr, op)) in queries.iter().enumerate() {
+        let (tz, expr, op) = (*tz, expr.clone(), *op);
+        case.units += 1;
+        let alone = std::thread::spawn(move || {
+            let oh = AnyOh::Tz(OpeningHours::parse(&expr).unwrap().with_context(Context::default().with_locale(TzLocation::new(tz))), tz);
+            answer(&[oh], &Query { oh: 0, op, t })
+        })
+        .join()
+        .map_err(|_| "reference thread panicked".to_string())?;
+        if alone != here[i] {
+            return Err(format!(
+                "query #{i} ({:?} `{}` @ {} from {t} UTC) answers {} after the queries before it on the same thread, but {} alone on a fresh thread",
+                queries[i].2, queries[i].1, queries[i].0, cut(&here[i]), cut(&alone)
+            ));
+        }
+    }
+    let zones: std::collections::BTreeSet<&str> = queries.iter().map(|q| q.0.name()).collect();
+    case.nontrivial = zones.len() >= 2;
+    case.label("zones_skipping_time_on_the_same_date");
+    Ok(())
+}
+
 fn extra(tier: Tier, seed: u64) -> Vec<SubOutcome> {
     vec![first_use(tier, seed)]
 }
@@ -791,6 +873,15 @@ pub fn property() -> Property {
                 text_f: None,
                 cases_quick: 4_000,
                 cases_thorough: 60_000,
+                max_choices: 60,
+            },
+            SubCheck {
+                name: "gap_histories",
+                rule: "3-7 queries (next_change, 12 intervals) on one thread over zones of one family (Europe, Australia, North America: 27 zones) that skip time on the same local date of a drawn year 2008-2030, each with a span bound on a wall-clock minute inside the skipped stretch of one of them, asked from the day before: every answer must equal the answer of the same query alone on a fresh thread with a freshly built value; non-trivial = at least two different zones",
+                f: gap_histories,
+                text_f: None,
+                cases_quick: 1_200,
+                cases_thorough: 30_000,
                 max_choices: 60,
             },
             SubCheck {
